@@ -35,6 +35,8 @@ type dbgPlan struct {
 	Lines        int      `json:"lines"`
 	// C16 only
 	Garbage bool `json:"garbage,omitempty"`
+	// the session runs through the debug console of cli/tool (cli.go)
+	CLI *cliPlan `json:"cli,omitempty"`
 }
 
 func init() {
@@ -127,11 +129,25 @@ func dbgGen(r *simrt.RNG, tier string, garbage bool) interface{} {
 		p.StopAgain = r.Bool(0.5)
 	}
 	p.Second = !garbage && !p.ResumeOnly && p.StopAtRound == 0 && r.Bool(0.2)
+	if (garbage && r.Bool(0.2)) || (!garbage && r.Bool(0.1)) {
+		for i, k := range p.Blocks {
+			if k == "lib" {
+				p.Blocks[i] = "func" // the console has one entry file
+			}
+		}
+		src, _ := dbgProgram(p)
+		p.Lines = strings.Count(src, "\n") + 1
+		p.ResumeOnly, p.StopAtRound, p.StopAgain, p.Second, p.BPs = false, 0, false, false, nil
+		p.CLI = cliGen(r, p, tier)
+	}
 	return p
 }
 
 func dbgShrink(pi interface{}) []interface{} {
 	p := pi.(*dbgPlan)
+	if p.CLI != nil {
+		return cliShrink(p)
+	}
 	var out []interface{}
 	clone := func() *dbgPlan {
 		q := *p
@@ -749,6 +765,10 @@ func dbgGarbage(suspended []uint64) string {
 }
 
 func dbgRun(p *dbgPlan, prop string) {
+	if p.CLI != nil {
+		cliRun(p, prop)
+		return
+	}
 
 	src, sinks := dbgProgram(p)
 	plain := dbgExec(p, src, false, prop)
